@@ -211,10 +211,12 @@ def compare(c, impl_line, drv_line):
     if c["op"] == "eq":
         if boundary:
             return "skipped", ""
-        if model_s != spec_s:
-            return "broken", f"model {model_s} spec {spec_s}"
         if impl_line != spec_s:
-            return "impl_vs_spec", f"== returned {impl_line}, spec says {spec_s}"
+            return "impl_vs_spec", f"== returned {impl_line}, spec (documented 1e-3 tolerance, same length) says {spec_s}"
+        if model_s != spec_s:
+            # the code agrees with the specification and the model does not: the model (or the constant the
+            # translator read for it) is wrong — a bug of this check, not a finding about /repo
+            return "broken", f"model {model_s} spec {spec_s}"
         return "ok", ""
     if c["op"] == "total":
         a, b = Fraction(impl_line), Fraction(model_s)
